@@ -248,11 +248,13 @@ class Frame(Formattable):
                 self_type = self.pyframe.f_locals["cls"]
             else:
                 return None
+            # (the object bound to 'cls' can be anything, including something
+            # whose attribute lookup raises: an unbound lazy proxy, a dead weakref.proxy)
+            return getattr(self_type, "__qualname__", None) or getattr(
+                self_type, "__name__", None
+            )
         except Exception:
             return None
-        return getattr(self_type, "__qualname__", None) or getattr(
-            self_type, "__name__", None
-        )
 
     @property
     def modname(self) -> Optional[str]:
